@@ -43,7 +43,16 @@ pub fn run_read(_id: &str, p: &HashMap<String, String>, out: &mut Vec<String>) {
         .unwrap_or_default();
     let r = catch_unwind(AssertUnwindSafe(|| {
         let mut lines = Vec::new();
-        if fmt == "iccma" {
+        if fmt == "prob" {
+            // the problem-string parser of the command line (C05)
+            match std::str::from_utf8(&bytes) {
+                Ok(s) => match crustabri::aa::Query::read_problem_string(s) {
+                    Ok((q, sem)) => lines.push(format!("P ok {} {}", q.as_ref(), sem.as_ref())),
+                    Err(_) => lines.push("P err".to_string()),
+                },
+                Err(_) => lines.push("P skip".to_string()),
+            }
+        } else if fmt == "iccma" {
             let rd = Iccma23Reader::default();
             match rd.read(&mut bytes.as_slice()) {
                 Ok(af) => {
